@@ -82,6 +82,9 @@ NewReq(c, s, idem, op, cached, tok, ss) ==
      ph |-> "exec",            \* exec: the proxy owes a move; wait: an attempt is outstanding; done
      must |-> {"next"},        \* allowed moves: next, same, prep, reply_<kind>
      retry |-> 0,
+     rlo |-> 0,                \* lower bound of the retry count: below `retry` only when a counted answer may have
+     prlo |-> 0,               \* been lost with its connection before the proxy read it (maylost; prlo is the lower
+     maylost |-> FALSE,        \* bound before that answer, which is the effective one while maylost)
      tried |-> <<>>,           \* hosts consumed from the query plan, in order
      cur |-> NONE,             \* host of the current attempt
      ab |-> 0,                 \* backend connection of the current attempt
@@ -129,7 +132,10 @@ DoTake(r, h, b, bs, op) ==
         /\ UNCHANGED <<rq, conn, out>>
     ELSE
     LET isprep == op = "PREPARE" /\ q.op # "PREPARE"
-        legalReq == ~isprep /\ q.ph = "exec" /\ (TakeIsNext(q, h) \/ TakeIsSame(q, h))
+        \* (a request answered "connection closed" by a late close notification while its sending path, after a
+        \* refused write, had already written it to the next host is taken by that host after the answer)
+        legalReq == ~isprep /\ ((q.ph = "exec" /\ (TakeIsNext(q, h) \/ TakeIsSame(q, h)))
+                                \/ (q.ph = "done" /\ q.fork /\ q.lastkind = "connclosed" /\ (TakeIsNext(q, h) \/ TakeIsSame(q, h))))
         legalPrep == isprep /\ q.ph = "exec" /\ TakeIsPrep(q, b)
         ghost == ~isprep /\ ~legalReq /\ TakeIsGhost(q, h)
         \* a stale pending entry re-executes the request on a second path; that path may still be sending
@@ -145,11 +151,14 @@ DoTake(r, h, b, bs, op) ==
     IN
     /\ rq' = [rq EXCEPT ![r] =
                 [q EXCEPT !.ph = IF q.ph = "done" THEN "done" ELSE "wait",
-                          !.must = {},
+                          \* (a forked request keeps the answer its other path may still deliver)
+                          !.must = IF q.fork THEN q.must \ {"next", "same", "prep"} ELSE {},
                           !.cur = IF isprep THEN q.cur ELSE h,
                           !.ab = b,
                           !.mode = IF isprep THEN "prep" ELSE "req",
                           !.ans = NONE,
+                          \* a retry on the same host shows that the answer was read, not lost
+                          !.maylost = q.maylost /\ ~(~isprep /\ TakeIsSame(q, h) /\ ~TakeIsNext(q, h)),
                           !.stale = IF ghost THEN q.stale - 1 ELSE q.stale,
                           !.tried = IF (legalReq /\ TakeIsNext(q, h) /\ ~TakeIsSame(q, h)) \/ ghost
                                        \/ (~legal /\ ~isprep /\ h \notin Range(q.tried))
@@ -179,20 +188,22 @@ DoAnswer(r, b, bs, o) ==
     LET x == CHOOSE y \in xs : TRUE
         current == q.ph = "wait" /\ q.ab = b /\ q.mode = x.op
         d == Decide(o, q.idem, q.retry)
+        lo == IF q.maylost THEN q.prlo ELSE q.rlo
+        dlo == Decide(o, q.idem, lo)
+        MoveOf(dd) == IF dd = "same" THEN {"same"} ELSE IF dd = "next" THEN {"next"} ELSE {"reply_" \o ReplyKind(o)}
         newmust ==
             IF x.op = "prep" THEN (IF o = "ok" THEN {"same"} ELSE {"next"})
             ELSE IF o = "unprepared" /\ q.cached /\ q.op # "PREPARE" THEN {"prep"}
-            ELSE IF d = "same" THEN {"same"}
-            ELSE IF d = "next" THEN {"next"}
-            ELSE {"reply_" \o ReplyKind(o)}
-        newretry == IF x.op = "req" /\ ~(o = "unprepared" /\ q.cached) /\ d \in {"same", "next"}
-                    THEN q.retry + 1 ELSE q.retry
+            ELSE MoveOf(d) \cup MoveOf(dlo)
+        counts == x.op = "req" /\ ~(o = "unprepared" /\ q.cached)
+        newretry == IF counts /\ d \in {"same", "next"} THEN q.retry + 1 ELSE q.retry
+        newrlo == IF counts /\ dlo \in {"same", "next"} THEN lo + 1 ELSE lo
     IN
     /\ out' = out \ {x}
     /\ rq' = [rq EXCEPT ![r] =
                 IF current THEN
                     [q EXCEPT !.ph = "exec", !.must = IF q.fork THEN q.must \cup newmust \cup {"reply_" \o ReplyKind(o)} ELSE newmust,
-                              !.retry = newretry, !.ans = o,
+                              !.retry = newretry, !.rlo = newrlo, !.prlo = lo, !.maylost = FALSE, !.ans = o,
                               !.unsafe = IF x.op = "req" THEN (q.unsafe \/ o \notin SafeToResend) ELSE q.unsafe,
                               !.attlog = IF x.op = "req" THEN Append(q.attlog, <<q.cur, o>>) ELSE q.attlog]
                 ELSE \* answer to a superseded (ghost) attempt: first result wins, the other is dropped
@@ -214,13 +225,14 @@ DoDrop(b) ==
                 LET q == rq[r] IN
                 IF q.ph = "wait" /\ q.ab = b /\ (\E x \in lost : x.r = r)
                 THEN [q EXCEPT !.ph = "exec",
-                               !.must = OnCloseMoves(q),
+                               !.must = IF q.fork THEN (q.must \ {"next", "same", "prep"}) \cup OnCloseMoves(q) ELSE OnCloseMoves(q),
                                !.ans = NONE,
                                !.unsafe = IF q.mode = "req" THEN TRUE ELSE q.unsafe,
                                !.attlog = IF q.mode = "req" THEN Append(q.attlog, <<q.cur, "lost">>) ELSE q.attlog]
                 ELSE IF q.ph = "exec" /\ q.ab = b /\ q.ans # NONE
                 THEN \* answered, not yet visibly processed: the answer may have been lost with the connection
-                     [q EXCEPT !.must = q.must \cup OnCloseMoves(q)
+                     [q EXCEPT !.maylost = TRUE,
+                               !.must = q.must \cup OnCloseMoves(q)
                                         \cup (IF "prep" \in q.must /\ ReprepareFailForwards THEN {"reply_unprepared"} ELSE {})
                                         \cup (IF "prep" \in q.must /\ ~ReprepareFailForwards THEN {"next"} ELSE {})]
                 ELSE q]
@@ -232,7 +244,9 @@ DoSendFail(r, h, why) ==
     IF r \notin DOMAIN rq THEN
         /\ bad' = Flag(FALSE, "HARNESS", "sendfail for unknown request", r) /\ UNCHANGED <<rq, conn, out>>
     ELSE
-    LET justified == IF why = "streams" THEN \E b \in DOMAIN conn : conn[b].h = h /\ Cardinality(Outstanding(b)) >= StreamLimit
+    \* stream exhaustion: the harness only sees attempts the backend has already taken, requests still on the wire
+    \* and the proxy's own heartbeats also hold stream ids, so half the limit is accepted as evidence
+    LET justified == IF why = "streams" THEN \E b \in DOMAIN conn : conn[b].h = h /\ 2 * Cardinality(Outstanding(b)) >= StreamLimit
                      ELSE Shaky(h, q.sess)
         asNext == q.ph = "exec" /\ TakeIsNext(q, h)
         asSame == q.ph = "exec" /\ TakeIsSame(q, h) /\ ~asNext
@@ -248,7 +262,8 @@ DoSendFail(r, h, why) ==
                           !.stale = (IF asGhost THEN q.stale - 1 ELSE q.stale) + (IF why = "write" THEN 1 ELSE 0),
                           !.fork = q.fork \/ why = "write",
                           !.ans = IF asNext \/ asSame \/ asPrep THEN NONE ELSE q.ans,
-                          !.must = IF asSame THEN (IF RetrySameSpins THEN q.must ELSE {"next"})
+                          !.must = IF asDup THEN q.must \cup {"next"}   \* the sending path goes on to the next host
+                                   ELSE IF asSame THEN (IF RetrySameSpins THEN q.must ELSE {"next"})
                                    ELSE IF asPrep THEN (IF ReprepareFailForwards THEN {"reply_unprepared"} ELSE {"next"})
                                    ELSE q.must]]
     /\ bad' = Flag(justified /\ (asNext \/ asSame \/ asPrep \/ asGhost \/ asDup \/ q.fork), "C05",
@@ -287,16 +302,21 @@ DoReply(r, c, s, kind, tok, node) ==
                    \/ (kind = "connclosed" /\ q.stale > 0 /\ ~q.idem)
                    \/ (q.fork /\ kind = "nohosts")
         content == kind # "ok" \/ q.op = "PREPARE" \/ (tok = q.tok /\ (node = q.cur \/ node \in Range(q.tried)))
+        \* the frame is either the proxy's own error or the answer some backend gave to an attempt of this request
+        known == \/ kind \in {"nohosts", "connclosed"}
+                 \/ \E i \in DOMAIN q.attlog : ReplyKind(q.attlog[i][2]) = kind
+                 \/ (q.ans # NONE /\ ReplyKind(q.ans) = kind)
     IN
-    /\ rq' = [rq EXCEPT ![r] = [q EXCEPT !.ph = "done", !.must = {}, !.nrep = q.nrep + 1, !.ans = NONE,
+    /\ rq' = [rq EXCEPT ![r] = [q EXCEPT !.ph = "done", !.must = IF q.fork /\ kind = "connclosed" THEN q.must \cap {"next", "same"} ELSE {}, !.nrep = q.nrep + 1, !.ans = NONE,
                                          !.lastkind = IF q.nrep = 0 THEN kind ELSE q.lastkind]]
     /\ bad' = Flag(own /\ first /\ allowed /\ content,
                    IF ~own THEN "C02" ELSE IF ~first THEN "C01" ELSE IF ~content THEN "C02"
-                   ELSE IF kind = "unprepared" /\ q.cached THEN "C08" ELSE "C05",
+                   ELSE IF kind = "unprepared" /\ q.cached THEN "C08" ELSE IF ~known THEN "C02" ELSE "C05",
                    IF ~own THEN "response delivered on a stream/client that did not send the request"
                    ELSE IF ~first THEN "second response for one request"
                    ELSE IF ~content THEN "response carries another request's answer"
                    ELSE IF kind = "unprepared" /\ q.cached THEN "UNPREPARED returned although the statement is cached"
+                   ELSE IF ~known THEN "response is not the answer to any attempt of this request"
                    ELSE "reply not prescribed by the retry policy", r)
     /\ UNCHANGED <<conn, out>>
 
